@@ -205,7 +205,7 @@ RunDefers(P, ds, st) ==
         st1 == [st EXCEPT !.status = "ok", !.recd = FALSE,
                           !.ev = Append(@, [t |-> "run", id |-> d.id, depth |-> st.depth])]
         r == IF d.k = "lit"
-             THEN RunBody(P, d.body, d.env, st1, [direct |-> panicking, ret |-> "$none"]).st
+             THEN RunBody(P, d.body, d.env, st1, [direct |-> panicking, ret |-> "$none", pv |-> saved]).st
              ELSE IF d.k = "print"
              THEN Emit1(st1, <<"d", d.vs[1]>>)
              ELSE IF d.k = "method"      \* t.bump(v) with the receiver's address fixed at the defer statement
@@ -247,7 +247,7 @@ CallFn(P, f, args, st) ==
         pc   == NewId(st)
         st1  == Alloc(Alloc(Alloc(st, args[1]), 0), 0)      \* p, r, q
         env  == Bind(Bind(Bind(Env0, "p", pc), "r", pc + 1), "q", pc + 2)
-        b    == RunBody(P, F.body, env, st1, [direct |-> FALSE, ret |-> "r"])
+        b    == RunBody(P, F.body, env, st1, [direct |-> FALSE, ret |-> "r", pv |-> 0])
     IN [vs |-> <<b.st.cells[pc + 1], b.st.cells[pc + 2]>>, st |-> b.st]
 
 \* call of a function literal value: its own environment, one hidden result cell
@@ -255,7 +255,7 @@ CallClo(P, c, args, st) ==
     LET rc  == NewId(st)
         st1 == IF c.par THEN Alloc(Alloc(st, 0), args[1]) ELSE Alloc(st, 0)
         env == IF c.par THEN Bind(Bind(c.env, "$ret", rc), "a", rc + 1) ELSE Bind(c.env, "$ret", rc)
-        b   == RunBody(P, c.body, env, st1, [direct |-> FALSE, ret |-> "$ret"])
+        b   == RunBody(P, c.body, env, st1, [direct |-> FALSE, ret |-> "$ret", pv |-> 0])
     IN [vs |-> <<b.st.cells[rc]>>, st |-> b.st]
 
 \* call every closure of a sequence, printing each result
@@ -467,7 +467,9 @@ ExecS(P, s, env, st0, ctx) ==
       [] s.k = "fault" -> R(env, Panic(st, "fault"))     \* a run-time fault of kind s.kind
       [] s.k = "recover" ->   \* if x := recover(); x != nil { print("rec", x) [; r = e] }
             IF ctx.direct /\ ~st.recd /\ s.how = "direct"
-            THEN LET st1 == Emit1([st EXCEPT !.recd = TRUE], <<"rec", st.pval>>) IN
+            \* the value recovered is the panic this deferred call was invoked for (ctx.pv), whatever
+            \* panics were raised and recovered by the functions it has called meanwhile
+            THEN LET st1 == Emit1([st EXCEPT !.recd = TRUE], <<"rec", ctx.pv>>) IN
                  IF s.setr THEN R(env, Store(st1, env["r"], st1.cells[env["r"]] + 100)) ELSE R(env, st1)
             ELSE R(env, Emit1(st, <<"norec">>))
       [] s.k = "asgidx" ->    \* x, arr[x] = e1, e2  |  arr[x], x = e2, e1 : the index is evaluated before x changes
@@ -736,7 +738,7 @@ ExecS(P, s, env, st0, ctx) ==
 RECURSIVE MarksFrom(_, _, _, _, _)
 MarksFrom(P, i, env, st, acc) ==
     IF i > Len(P.main) \/ ~Ok(st) THEN [marks |-> acc, st |-> st] ELSE
-    LET h == ExecS(P, P.main[i], env, st, [direct |-> FALSE, ret |-> "$none"]) IN
+    LET h == ExecS(P, P.main[i], env, st, [direct |-> FALSE, ret |-> "$none", pv |-> 0]) IN
     MarksFrom(P, i + 1, h.env, h.st, Append(acc, Len(h.st.out)))
 SessionRun(P) ==
     LET m == MarksFrom(P, 1, Env0, [St0 EXCEPT !.dstk = << <<>> >>, !.astk = <<1>>, !.na = 1, !.depth = 1], <<>>) IN
@@ -744,7 +746,7 @@ SessionRun(P) ==
 
 (* meaning of a program *)
 Run(P) ==
-    LET b == RunBody(P, P.main, Env0, St0, [direct |-> FALSE, ret |-> "$none"]) IN
+    LET b == RunBody(P, P.main, Env0, St0, [direct |-> FALSE, ret |-> "$none", pv |-> 0]) IN
     [out |-> b.st.out, status |-> b.st.status, pval |-> b.st.pval, ev |-> b.st.ev,
      globals |-> SubSeq(b.st.cells, 1, 6), steps |-> Fuel - b.st.fuel]
 ===============================================================================
